@@ -2,6 +2,7 @@ package main
 
 import (
 	"fmt"
+	"sort"
 	"go/types"
 	"strings"
 	"golang.org/x/tools/go/ssa"
@@ -11,6 +12,56 @@ import (
 // Built-in (non-contract) checks registered per property.
 
 func builtinChecks(e *Engine, prop, tier string) []*groupResult {
+	gs := builtinChecksFor(e, prop, tier)
+	return append(gs, pureChecks(e, prop)...)
+}
+
+// pureChecks: every contract marked "pure" is checked by the frame analysis
+// to write no memory reachable from its receiver, parameters or globals.
+func pureChecks(e *Engine, prop string) []*groupResult {
+	var out []*groupResult
+	var fa *frameAn
+	for _, ct := range e.cs.contracts {
+		if !ct.pure || ct.lemma {
+			continue
+		}
+		has := false
+		for _, p := range ct.props {
+			if p == prop {
+				has = true
+			}
+		}
+		if !has {
+			continue
+		}
+		if fa == nil {
+			fa = newFrameAn(e.x.prog)
+		}
+		g := &groupResult{Name: ct.label() + "/frame.reads-only", Status: "discharged", Queries: 1, Backends: []string{"frame"}, What: "declared pure: writes no memory reachable from receiver, parameters, globals or captured variables"}
+		func() {
+			defer func() {
+				if r := recover(); r != nil {
+					g.Status = "error"
+					g.Detail = fmt.Sprint(r)
+				}
+			}()
+			fn := e.x.resolveFunc(ct)
+			var bad []string
+			for _, w := range fa.summary(fn) {
+				p := e.x.prog.Fset.Position(w.pos)
+				bad = append(bad, fmt.Sprintf("%s to %s%s in %s (%s:%d)", w.what, w.r, fieldSuffix(w.field), shortFn(w.fn), trimRepo(p.Filename, e.repo), p.Line))
+			}
+			if len(bad) > 0 {
+				g.Status = "refuted"
+				g.Detail = strings.Join(bad, "; ")
+			}
+		}()
+		out = append(out, g)
+	}
+	return out
+}
+
+func builtinChecksFor(e *Engine, prop, tier string) []*groupResult {
 	switch prop {
 	case "C05":
 		gs := lemmaGroups("render.mcTables", mcTableLemmas(e.x))
@@ -22,6 +73,11 @@ func builtinChecks(e *Engine, prop, tier string) []*groupResult {
 		gs = append(gs, cellCodeCheck(e, "msToLines", 4, e.x.intTable1("render", "msEdgeTable"), e.x.intTable2("render", "msPairTable"), e.x.intTable2("render", "msLineTable"), 2, "msInterpolate"))
 		gs = append(gs, tablesImmutable(e, []string{"msEdgeTable", "msPairTable", "msLineTable"}))
 		return gs
+	case "C04":
+		return []*groupResult{
+			soleWriters(e, "sdf", "lineInfo", []string{"newLineInfo"}, "so every segment record is one that newLineInfo built (its postcondition is the record invariant the evaluation contracts assume)"),
+			soleWriters(e, "sdf", "qtNode", []string{"qtBuild"}, "so every quadtree node is one that qtBuild built and is never modified afterwards"),
+		}
 	case "C18":
 		return threadDBChecks(e)
 	case "C13":
@@ -76,13 +132,13 @@ func (x *Exec) appendSym(st *State, fr *Frame, s, m *SliceV) Value {
 	if off, ok := concreteInt(boff); !ok || off != 0 {
 		fail("append to a slice with non-zero offset into a symbolic array")
 	}
-	n := &SymArr{elem: et, name: base.name}
+	n := &SymArr{elem: et, name: base.name, pre: base.pre}
 	n.writes = append([]symWrite{}, base.writes...)
 	if ml, ok := concreteInt(m.len); ok && m.cell != nil {
 		if src, ok := st.store[m.cell].(*Tuple); ok {
 			mo, _ := concreteInt(m.off)
 			for i := 0; i < ml; i++ {
-				n.writes = append(n.writes, symWrite{idx: mkAdd(s.len, mkInt(int64(i))), val: src.el[mo+i]})
+				n.writes = append(n.writes, symWrite{idx: mkAdd(s.len, mkInt(int64(i))), val: x.escape(st, src.el[mo+i])})
 			}
 			cell := newCell("append", types.NewArray(et, -1))
 			st.store[cell] = n
@@ -96,6 +152,69 @@ func (x *Exec) appendSym(st *State, fr *Frame, s, m *SliceV) Value {
 	st.store[cell] = n
 	nl := mkAdd(s.len, m.len)
 	return &SliceV{cell: cell, off: mkInt(0), len: nl, cap: nl, elem: et, named: s.named}
+}
+
+// soleWriters: the fields of the named struct type are written (and objects of
+// it are created) only by the listed functions.
+func soleWriters(e *Engine, pkg, typeName string, allowed []string, why string) *groupResult {
+	g := &groupResult{Name: pkg + "." + typeName + "/written-only-by-its-constructor", Status: "discharged", Queries: 1, Backends: []string{"frame"},
+		What: "objects of type " + typeName + " are created and written only by " + strings.Join(allowed, ", ") + " - " + why}
+	ok := map[string]bool{}
+	for _, a := range allowed {
+		ok[a] = true
+	}
+	isT := func(t types.Type) bool {
+		if p, isP := t.Underlying().(*types.Pointer); isP {
+			t = p.Elem()
+		}
+		n, isN := t.(*types.Named)
+		return isN && n.Obj().Name() == typeName && n.Obj().Pkg() != nil && n.Obj().Pkg().Name() == pkg
+	}
+	var bad []string
+	for fn := range ssautil.AllFunctions(e.x.prog) {
+		if !inModule(fn) || ok[fn.Name()] {
+			continue
+		}
+		for _, b := range fn.Blocks {
+			for _, in := range b.Instrs {
+				where := ""
+				switch s := in.(type) {
+				case *ssa.Store:
+					addr := s.Addr
+					for depth := 0; depth < 20 && addr != nil; depth++ {
+						switch a := addr.(type) {
+						case *ssa.FieldAddr:
+							if isT(a.X.Type()) {
+								where = "writes a field"
+							}
+							addr = a.X
+						case *ssa.IndexAddr:
+							addr = a.X
+						default:
+							if isT(addr.Type()) {
+								where = "overwrites an object"
+							}
+							addr = nil
+						}
+					}
+				case *ssa.Alloc:
+					if isT(s.Type()) && s.Heap {
+						where = "allocates an object"
+					}
+				}
+				if where != "" {
+					p := e.x.prog.Fset.Position(in.Pos())
+					bad = append(bad, fmt.Sprintf("%s %s (%s:%d)", shortFn(fn), where, trimRepo(p.Filename, e.repo), p.Line))
+				}
+			}
+		}
+	}
+	if len(bad) > 0 {
+		sort.Strings(bad)
+		g.Status = "refuted"
+		g.Detail = strings.Join(bad, "; ")
+	}
+	return g
 }
 
 // tablesImmutable: no instruction outside the package initialiser stores
